@@ -765,6 +765,25 @@ func (e *CEnv) callExpr(x *CExpr) (Val, error) {
 		return vs, nil
 	}
 	switch x.Name {
+	case "deref":
+		// deref(p): the value a pointer denotes (statically known address or opaque Ptr term)
+		pv, err := e.eval(x.Args[0])
+		if err != nil {
+			return Val{}, err
+		}
+		pt, ok := pv.T.Underlying().(*types.Pointer)
+		if !ok {
+			return Val{}, fmt.Errorf("deref of non-pointer %s", x.Args[0])
+		}
+		if pv.Addr != nil {
+			v := c.load(e.st, pv.Addr)
+			v.T = pt.Elem()
+			return v, nil
+		}
+		if _, isStruct := pt.Elem().Underlying().(*types.Struct); isStruct {
+			return Val{}, fmt.Errorf("deref of a struct pointer: use field access")
+		}
+		return Val{T: pt.Elem(), Term: c.ptrLoad(e.st, c.termOf(pv), pt.Elem())}, nil
 	case "fieldIs":
 		// fieldIs(p, T.f [, obj]): pointer p denotes field f of a T object (obj if given)
 		if len(x.Args) < 2 || x.Args[1].Op != "field" || x.Args[1].Args[0].Op != "ident" {
@@ -1096,6 +1115,70 @@ func (e *CEnv) modSet(ct *Contract) (*ModSet, error) {
 
 func (e *CEnv) addLoc(ms *ModSet, loc *CExpr) error {
 	c := e.c
+	if loc.Op == "call" && loc.Name == "allElems" {
+		// allElems(T): the elements of every slice of type T (whole element heap)
+		if len(loc.Args) != 1 {
+			return fmt.Errorf("allElems(SliceType)")
+		}
+		t, err := e.resolveType(&CType{Kind: "name", Name: strings.ReplaceAll(loc.Args[0].String(), " ", "")})
+		if err != nil {
+			return err
+		}
+		sl, ok := t.Underlying().(*types.Slice)
+		if !ok {
+			return fmt.Errorf("allElems needs a slice type")
+		}
+		name, sort := c.elemHeap(sl.Elem())
+		c.heapSorts[name] = sort
+		ms.whole[name] = true
+		return nil
+	}
+	if loc.Op == "call" && loc.Name == "deref" {
+		pv, err := e.eval(loc.Args[0])
+		if err != nil {
+			return err
+		}
+		pt, ok := pv.T.Underlying().(*types.Pointer)
+		if !ok {
+			return fmt.Errorf("deref of non-pointer")
+		}
+		if a := pv.Addr; a != nil {
+			switch a.Kind {
+			case akField:
+				name, sort := c.fieldHeap(a.Struct, a.FieldIdx)
+				c.heapSorts[name] = sort
+				ms.addRef(name, a.Ref)
+			case akCell:
+				name, sort := c.cellHeap(a.RootT)
+				c.heapSorts[name] = sort
+				ms.addRef(name, a.Ref)
+			case akElem:
+				name, sort := c.elemHeap(a.RootT)
+				c.heapSorts[name] = sort
+				ms.addRef(name, a.Ref)
+			default:
+				return fmt.Errorf("deref of a local address")
+			}
+			return nil
+		}
+		p := c.termOf(pv)
+		et := pt.Elem()
+		cn, cs := c.cellHeap(et)
+		c.heapSorts[cn] = cs
+		ms.addPred(cn, func(r string) string { return and(app("(_ is pcell)", p), eq(r, app("pc_ref", p))) })
+		en, es := c.elemHeap(et)
+		c.heapSorts[en] = es
+		ms.addPred(en, func(r string) string { return and(app("(_ is pelem)", p), eq(r, app("pe_base", p))) })
+		for _, fc := range c.eng.fieldsOfType(et) {
+			name, sort := c.fieldHeap(fc.st, fc.idx)
+			c.heapSorts[name] = sort
+			id := fmt.Sprint(c.fieldID(name))
+			ms.addPred(name, func(r string) string {
+				return and(app("(_ is pfield)", p), eq(app("pf_id", p), id), eq(r, app("pf_ref", p)))
+			})
+		}
+		return nil
+	}
 	switch loc.Op {
 	case "ident":
 		if loc.Name == "everything" {
